@@ -75,7 +75,8 @@ pub fn run(out: &mut Out, seed: u64, tier: &str) {
             }
         }
     }
-    // separate runs of the command-line tool: opt.xyz must be byte-identical
+    // separate runs of the command-line tool: the same atoms, coordinates equal to the written precision (1e-6 A; the
+    // property does not promise identical bytes: `-0.000000` and `0.000000`, or a last digit on a rounding boundary, may differ)
     let n_cli = if tier == "thorough" { 12 } else { 4 };
     let cli_reps = if tier == "thorough" { 8 } else { 4 };
     let mut cli_runs = 0usize;
@@ -90,7 +91,14 @@ pub fn run(out: &mut Out, seed: u64, tier: &str) {
                 if !ok { break; }
                 match (&first, bytes) {
                     (None, Some(b)) => first = Some(b),
-                    (Some(f), Some(b)) => if *f != b { out.oracle_fail("opt.xyz differs between runs of the command-line tool on the same input", &m.xyz_text()); break; },
+                    (Some(f), Some(b)) => if *f != b {
+                        let same = match (crate::s_cli::parse_xyz(f), crate::s_cli::parse_xyz(&b)) {
+                            (Some((s1, x1)), Some((s2, x2))) => s1 == s2 && x1.len() == x2.len()
+                                && x1.iter().zip(x2.iter()).all(|(p, q)| (0..3).all(|c| (p[c] - q[c]).abs() <= 1.0000001e-6)),
+                            _ => false,
+                        };
+                        if !same { out.oracle_fail("opt.xyz differs (beyond the written precision) between runs of the command-line tool on the same input", &m.xyz_text()); break; }
+                    },
                     _ => {}
                 }
             }
